@@ -54,9 +54,10 @@
 (*                     CAS) is exposed to the other thread in between.     *)
 (*                     The atomic-grain functions ARE XLoc(XOp(..)).       *)
 (*   Grain = "call"    one action per public call of a single thread:      *)
-(*                     Register(timing,outcome) / Resolve(outcome) are the *)
-(*                     compositions of the atomic functions in the only    *)
-(*                     order a single thread can execute them              *)
+(*                     Register(timing,outcome,context) / Resolve(outcome, *)
+(*                     context) are the compositions of the atomic         *)
+(*                     functions in the only order a single thread can     *)
+(*                     execute them                                        *)
 (* Calling context (par.ctx, call grain): "plain" = ordinary code, "coro" = *)
 (* from inside a running coroutine (coro_queue active).  There the helper  *)
 (* coroutine of callback_await is only QUEUED by detach() (suspend_point.h *)
@@ -68,6 +69,25 @@
 (* named object); ArgsAsPassed demands they equal what was passed.         *)
 (* The static choices (adapter, allocator, converter behaviour, ...) are   *)
 (* the record `par`, picked in Init: one TLC run covers all combinations.  *)
+(*                                                                         *)
+(* Execution context of a thread (s.cx[thread]): WHERE in the user's       *)
+(* program the registering call / the resolution of the promise happens:   *)
+(*   "plain"    ordinary control flow, the promise is called               *)
+(*   "guard"    in the destructor of an RAII guard that runs because an    *)
+(*              exception is propagating (std::uncaught_exceptions() > 0)  *)
+(*   "handler"  inside a catch handler (std::current_exception() is set;   *)
+(*              an exception outcome is the handled exception itself:      *)
+(*              p(std::current_exception()) / p.unhandled_exception())     *)
+(*   "scope"    (resolution only) the promise is never called: it is       *)
+(*              destroyed at the end of its scope -> broken promise        *)
+(*   "local"    (resolution only) the same, but the scope is left by an    *)
+(*              exception: the promise is a local destroyed by unwinding   *)
+(* In the last two the future is resolved by ~promise (future.h:600-603:   *)
+(* plain load of _owner, then resolve(); not an exchange, so legal only    *)
+(* while no other thread uses the promise).  The property does not depend  *)
+(* on the context: no action looks at it, CallbackOnce / RightOutcome /    *)
+(* HelperFreedOnce must hold in every one of them.  (Only the seeded       *)
+(* variant SkipUnwinding, a property self-test, looks at it.)              *)
 (***************************************************************************)
 EXTENDS Integers, Sequences, FiniteSets, TLC
 
@@ -84,8 +104,12 @@ CONSTANTS
                  \* (repaired, /repo commit 51599f2); FALSE: future_conv.h as pinned (they never look at the source)
     ArmLate,     \* {} as the code is.  Seeded variant (self-test): adapters that store the helper's resume
                  \* function AFTER the publishing CAS instead of before it
-    ArgsByRef    \* FALSE as the code is.  Seeded variant (self-test): the helper coroutine keeps references
+    ArgsByRef,   \* FALSE as the code is.  Seeded variant (self-test): the helper coroutine keeps references
                  \* to the caller's arguments instead of copies
+    RegCtxs,     \* execution contexts of the registering call, subset of {"plain","guard","handler"}
+    ResCtxs,     \* execution contexts of the resolution, subset of {"plain","guard","handler","scope","local"}
+    SkipUnwinding \* {} as the code is.  Seeded variant (self-test): adapters whose completion does not enter the
+                 \* user's callback while an exception is propagating in the completing thread
 
 VARIABLES par, s
 vars == <<par, s>>
@@ -99,6 +123,13 @@ Functor   == {"cbawait", "cbawait_v", "mkprom"}                          \* help
 Allocating == Functor                                                    \* helper allocated through a chosen storage
 Coroutine == {"cbawait", "cbawait_v"}                                    \* registers through co_await
 Callback  == Functor \cup {"callfn"}                                     \* completion = call of a user callback
+
+Threads   == Res \cup {"a"}
+DtorCtx   == {"scope", "local"}              \* the future is resolved by ~promise (future.h:600-603)
+Unwinding(st, th) == st.cx[th] \in {"guard", "local"}     \* std::uncaught_exceptions() > 0 in thread th
+(* a resolution by outcome o in context x is a legal use of the library *)
+LegalRes(o, x) == x \in DtorCtx => (o = "drop" /\ Cardinality(Res) = 1)
+ASSUME RegCtxs \subseteq {"plain", "guard", "handler"} /\ ResCtxs \subseteq {"plain", "guard", "handler", "scope", "local"}
 
 (* cv: what the user's converter does.  ok: converts (x+100) / resolves the passed promise; throw: throws;
    ignore: promise-passing converter returns without touching the promise; later: it moves the promise
@@ -121,6 +152,7 @@ S0 == [round |-> 0,
        owner |-> "none", slot |-> "none", tag |-> "none", payload |-> 0,
        \* threads: the registering thread and the resolvers
        apc |-> "idle", rpc |-> [r \in Res |-> "idle"], rres |-> [r \in Res |-> "none"], rk |-> [r \in Res |-> "none"],
+       cx |-> [t \in Threads |-> "plain"],     \* execution context of the thread's current call
        \* locals of a thread between an atomic operation and the plain code after it (fine grain)
        sawready |-> FALSE, casok |-> FALSE, won |-> [r \in Res |-> FALSE], chain |-> [r \in Res |-> "null"],
        armed |-> FALSE,   \* the helper's awaiter node has its resume function / coroutine handle set
@@ -141,8 +173,12 @@ S0 == [round |-> 0,
        \* converters
        prom |-> "null", outer |-> [st |-> "none", v |-> 0], user |-> "none"]
 
+(* atomic / fine grain: what every thread is going to do (outcome, context) is fixed at the start *)
+Progs == {kx \in [Res -> Outcomes] \X [Threads -> RegCtxs \cup ResCtxs] :
+            /\ kx[2]["a"] \in RegCtxs
+            /\ \A r \in Res : kx[2][r] \in ResCtxs /\ LegalRes(kx[1][r], kx[2][r])}
 Init == /\ par \in Params
-        /\ s \in IF Grain \in {"atomic", "fine"} THEN {[S0 EXCEPT !.rk = k] : k \in [Res -> Outcomes]} ELSE {S0}
+        /\ s \in IF Grain \in {"atomic", "fine"} THEN {[S0 EXCEPT !.rk = kx[1], !.cx = kx[2]] : kx \in Progs} ELSE {S0}
 
 Idx(r) == IF r = "r1" THEN 1 ELSE 2
 ValOf(st, r) == IF par.ad \in VoidSrc THEN 0 ELSE 10 * st.round + Idx(r)
@@ -195,14 +231,16 @@ Convert(st, res, th) ==
                    [] par.cv = "ignore" -> [s2 EXCEPT !.outer = [st |-> "drop", v |-> 0]]   \* ~promise of the local p
                    [] par.cv = "later" -> [s2 EXCEPT !.user = "held"]
 
-(* the helper's completion runs on thread th *)
+(* the helper's completion runs on thread th, in whatever context th is executing *)
 Fire(st, th) ==
     LET res == Result(st)
-        s1 == [st EXCEPT !.fired = @ + 1] IN
-    CASE par.ad \in Functor -> FreeHelper([s1 EXCEPT !.calls = @ + 1, !.got = res, !.by = th])
+        s1 == [st EXCEPT !.fired = @ + 1]
+        skip == par.ad \in SkipUnwinding /\ Unwinding(st, th)      \* seeded variant only
+        s2 == IF skip THEN s1 ELSE [s1 EXCEPT !.calls = @ + 1, !.got = res, !.by = th] IN
+    CASE par.ad \in Functor -> FreeHelper(s2)
       [] par.ad = "discard" -> FreeHelper(s1)
-      [] par.ad = "callfn"  -> [s1 EXCEPT !.calls = @ + 1, !.got = res, !.by = th]
-      [] OTHER -> Convert(s1, res, th)
+      [] par.ad = "callfn"  -> s2
+      [] OTHER -> IF skip THEN s1 ELSE Convert(s1, res, th)
 
 -----------------------------------------------------------------------------
 (* the atomic operations as functions on the state *)
@@ -242,8 +280,11 @@ StartRound(st) == StartBuild(StartAlloc(st))
    local; XLoc is the plain code up to the thread's next atomic operation (locals are reset to their idle
    values there, so the coarser grains do not see them). *)
 
-(* promise::claim: _owner.exchange(nullptr); the winner's future::set (plain stores) follows *)
-ClaimOp(st, r) == [st EXCEPT !.won[r] = (st.owner = "fut"), !.owner = "null", !.rpc[r] = "post_claim"]
+(* promise::claim: _owner.exchange(nullptr); the winner's future::set (plain stores) follows.
+   ~promise (future.h:600-603) only loads _owner; the word disappears with the promise (SwapLoc) *)
+ClaimOp(st, r) == IF st.cx[r] \in DtorCtx
+                    THEN [st EXCEPT !.won[r] = (st.owner = "fut"), !.rpc[r] = "post_claim"]
+                    ELSE [st EXCEPT !.won[r] = (st.owner = "fut"), !.owner = "null", !.rpc[r] = "post_claim"]
 ClaimLoc(st, r) ==
     IF st.won[r]
       THEN LET k == st.rk[r] IN
@@ -262,7 +303,8 @@ Deferred == par.ctx = "coro" /\ par.ad \in Coroutine
 SwapOp(st, r) == [st EXCEPT !.chain[r] = IF st.slot = "helper" THEN "helper" ELSE "null", !.slot = "ready",
                             !.rpc[r] = "post_swap"]
 SwapLoc(st, r) ==
-    LET s1 == [st EXCEPT !.chain[r] = "null", !.rpc[r] = "done", !.rres[r] = "true"] IN
+    LET s1 == [st EXCEPT !.chain[r] = "null", !.rpc[r] = "done", !.rres[r] = "true",
+                         !.owner = IF st.cx[r] \in DtorCtx THEN "none" ELSE @] IN
     IF st.chain[r] # "helper" \/ ~st.armed THEN s1
     ELSE IF Deferred THEN [s1 EXCEPT !.q = "resume"]
     ELSE Fire(s1, r)
@@ -290,33 +332,39 @@ AStep(st) == CASE st.apc = "check" -> CheckF(st) [] st.apc = "cas" -> CasF(st) [
 RECURSIVE RunA(_)
 RunA(st) == IF st.apc \in {"check", "cas", "fence"} THEN RunA(AStep(st)) ELSE st
 
-ResolveF(st, o) == SwapF(ClaimF([st EXCEPT !.rk["r1"] = o], "r1"), "r1")
+(* call grain: the whole resolution in context x; the context is left when the call returns *)
+ResolveF(st, o, x) ==
+    LET s1 == SwapF(ClaimF([st EXCEPT !.rk["r1"] = o, !.cx["r1"] = x], "r1"), "r1") IN [s1 EXCEPT !.cx["r1"] = "plain"]
 
 -----------------------------------------------------------------------------
 (* Grain = "call": single thread *)
 
 (* t = "before": the operation completes inside the function that starts it (the promise is resolved
-   before the adapter subscribes); t = "after": it is still pending when the registration returns *)
-BuildAndRun(st, o) == RunA(IF o # "none" THEN ResolveF(StartBuild(st), o) ELSE StartBuild(st))
+   before the adapter subscribes); t = "after": it is still pending when the registration returns.
+   x: the context the registering call is made in (the starting function runs nested in it) *)
+BuildAndRun(st, o, x) == RunA(IF o # "none" THEN ResolveF(StartBuild(st), o, x) ELSE StartBuild(st))
 
-Register(t, o) ==
+Register(t, o, x) ==
     /\ Grain = "call" /\ CanStart(s)
     /\ (t = "before") = (o # "none")
     /\ par.ad = "mkprom" => t = "after"
-    /\ s' = IF Deferred THEN [StartAlloc(s) EXCEPT !.q = "start", !.qpre = o]    \* detach(): helper queued
-            ELSE BuildAndRun(StartAlloc(s), o)
+    /\ LET s0 == [StartAlloc(s) EXCEPT !.cx["a"] = x]
+           s1 == IF Deferred THEN [s0 EXCEPT !.q = "start", !.qpre = o]    \* detach(): helper queued
+                 ELSE BuildAndRun(s0, o, x)
+       IN  s' = [s1 EXCEPT !.cx["a"] = "plain"]
     /\ UNCHANGED par
 
 (* the calling coroutine suspends (or finishes): the thread's ready queue runs the helper coroutine *)
 Yield ==
     /\ Grain = "call" /\ s.q # "none"
-    /\ s' = IF s.q = "start" THEN BuildAndRun([s EXCEPT !.q = "none", !.qpre = "none"], s.qpre)
+    /\ s' = IF s.q = "start" THEN BuildAndRun([s EXCEPT !.q = "none", !.qpre = "none"], s.qpre, "plain")
             ELSE Fire([s EXCEPT !.q = "none"], "a")
     /\ UNCHANGED par
 
-Resolve(o) ==
+Resolve(o, x) ==
     /\ Grain = "call" /\ s.owner = "fut" /\ s.apc = "done"
-    /\ s' = ResolveF(s, o)
+    /\ LegalRes(o, x)
+    /\ s' = ResolveF(s, o, x)
     /\ UNCHANGED par
 
 (* Grain = "atomic" *)
@@ -346,8 +394,8 @@ UserResolve ==
     /\ s' = [s EXCEPT !.user = "done", !.outer = [st |-> "val", v |-> CvBase(s, Result(s)) + 100]]
     /\ UNCHANGED par
 
-Next == \/ \E t \in {"before", "after"}, o \in Outcomes \cup {"none"} : Register(t, o)
-        \/ \E o \in Outcomes : Resolve(o)
+Next == \/ \E t \in {"before", "after"}, o \in Outcomes \cup {"none"}, x \in RegCtxs : Register(t, o, x)
+        \/ \E o \in Outcomes, x \in ResCtxs : Resolve(o, x)
         \/ Yield
         \/ Start \/ Check \/ Cas \/ Fence
         \/ \E r \in Res : Claim(r) \/ Swap(r)
@@ -369,6 +417,8 @@ TypeOK ==
     /\ \A r \in Res : s.rpc[r] \in {"idle", "claim", "post_claim", "swap", "post_swap", "done"}
     /\ s.q \in {"none", "start", "resume"}
     /\ Grain # "call" => par.ctx = "plain"
+    /\ s.cx["a"] \in RegCtxs \cup {"plain"} /\ \A r \in Res : s.cx[r] \in ResCtxs \cup {"plain"}
+    /\ Grain = "call" => \A t \in Threads : s.cx[t] = "plain"      \* between calls no context is open
     /\ s.hlive \in {0, 1} /\ s.heap \in 0..2 /\ s.blk \in {0, 1} /\ s.fb \in {0, 1} /\ s.cb \in {0, 1}
     /\ s.fired \in {0, 1}
 
@@ -376,7 +426,8 @@ Resolved == s.slot = "ready"
 Registered == s.apc = "done"
 
 (* the completion runs exactly once per awaited operation: never before the operation is resolved, never
-   twice, and never zero times once the operation is resolved and the registration call has returned *)
+   twice, and never zero times once the operation is resolved and the registration call has returned --
+   in whatever execution context (s.cx) the registration and the resolution happen *)
 CallbackOnce ==
     /\ s.fired <= 1
     /\ s.fired = 1 => Resolved
